@@ -254,7 +254,7 @@ def _features(m, spec, desc, ctx, rng, feat):
         base = rng.permutation(nc)[:k]
         if q == 2:
             # ids that name no channel of the probe (the first one past the last channel, a far one): zero columns
-            far_ = [nc, nc + 93, 5000][desc['seed'][2] % 3]        # (5000: an id far beyond the probe, among a handful of requested ones)
+            far_ = [nc, nc + 93, 5000][(desc['seed'][2] + desc['seed'][1]) % 3]        # (rotates with the shard too: independent of the padding rotation)        # (5000: an id far beyond the probe, among a handful of requested ones)
             base = np.r_[base[:2], far_] if desc['seed'][2] % 2 else np.r_[far_, base[:2]]
             k = len(base)
         perms = list(itertools.permutations(base.tolist()))
